@@ -17,7 +17,7 @@
 (* The property: every outcome is "ok" or "err".  A violating case is not  *)
 (* a dead end: its line number is appended to `bad`, so that one TLC run   *)
 (* reports every violating case.  A structurally wrong trace (ids not      *)
-(* consecutive from 1, unknown kind, wrong number of outcomes, unknown     *)
+(* consecutive, unknown kind, wrong number of outcomes, unknown     *)
 (* outcome word) is REJECTED (tool error).                                 *)
 (***************************************************************************)
 EXTENDS Naturals, Sequences, TLC, Json, IOUtils
@@ -45,7 +45,7 @@ TEps == /\ Ev("eps") /\ R.kind \notin DOMAIN neps /\ Len(R.names) > 0
 Holds(outs) == \A j \in 1..Len(outs) : outs[j] \in Acceptable
 
 TCase == /\ Ev("case")
-         /\ R.id = last + 1
+         /\ (last = 0 \/ R.id = last + 1)
          /\ R.kind \in DOMAIN neps
          /\ Len(R.outs) = neps[R.kind]
          /\ \A j \in 1..Len(R.outs) : R.outs[j] \in Outcomes
